@@ -2,7 +2,9 @@
    Exact arithmetic over the reals, for every threshold 0 < eps <= 1/8 (the library's eps, 2.2e-14, is one):
    the invariant  "coefficient vector of the right shape and | |rotation part|^2 - 1 | <= eps"
    is preserved by every step of the history machine (Hist.v: compose, inverse, between, += (rplus), lplus,
-   *=, exp, SLERP interpolation, cast, Random as exp of any tangent, in any order, on a pair of elements), the
+   *=, exp, SLERP interpolation, cast, Random — exp of a random tangent for SO2 / SE2 / Rn, the constructor applied to Eigen's
+   UnitRandom quaternion (randQuat) and random translation-like parts for SO3 / SE3 / SE_2(3) / SGal(3), as the code does —
+   in any order, on a pair of elements), the
    bound eps does not depend on the length of the history, and every element satisfying the invariant passes
    the constructors' run-time assertion | |rotation part| - 1 | < eps (so no history raises in an
    assertion-enabled build).  Averaging iterations are sequences of such steps (rminus / += with arbitrary
@@ -20,7 +22,7 @@ Proof. exact (renorm_cubic d). Qed.
 (* any group with a NormCore: every history (explicit list of steps, any length) keeps both elements within the
    invariant and accepted by the constructors *)
 Theorem C08_history (G : GroupOps RS) cast eps (N : NormCore G cast eps) ts us (ops : list (Z * nat)) X Y :
-  Forall (nc_twf N) ts -> nc_inv N X -> nc_inv N Y ->
+  Forall (nc_twf N) ts -> Forall (nc_draw N) ts -> nc_inv N X -> nc_inv N Y ->
   let st := fold_left (fun st o => hstep G cast ts us st (fst o) (snd o)) ops (X, Y) in
   nc_inv N (fst st) /\ nc_inv N (snd st) /\ g_assert_ok G (fst st) = true /\ g_assert_ok G (snd st) = true.
 Proof. exact (history_inv G cast eps N ts us ops X Y). Qed.
@@ -28,7 +30,7 @@ Print Assumptions C08_history.
 
 (* the encoded histories the implementation is compared with on every run are such histories *)
 Theorem C08_history_encoded (G : GroupOps RS) cast eps (N : NormCore G cast eps) fuel ts us code s X Y :
-  Forall (nc_twf N) ts -> nc_inv N X -> nc_inv N Y ->
+  Forall (nc_twf N) ts -> Forall (nc_draw N) ts -> nc_inv N X -> nc_inv N Y ->
   nc_inv N (fst (hrun G cast fuel ts us code s (X, Y))) /\ nc_inv N (snd (hrun G cast fuel ts us code s (X, Y))).
 Proof. exact (hrun_inv G cast eps N fuel ts us code s X Y). Qed.
 
@@ -48,6 +50,12 @@ Proof. exact (SGal3_norm eps). Qed.
 Theorem C08_Rn n eps : NormCore (Rn RS n) (fun c => c) eps.
 Proof. exact (Rn_norm n eps). Qed.
 Print Assumptions C08_SGal3.
+
+(* the range condition on the draws Random() consumes (UnitRandom's first draw u1 in [0, 1]; none for SO2 / SE2 / Rn) *)
+Theorem C08_SO3_draw_spelled eps (H1 : 0 < eps) (H2 : eps <= 1 / 8) u : nc_draw (SO3_norm eps H1 H2) u <-> 0 <= @vnth RS u 0 <= 1.
+Proof. reflexivity. Qed.
+Theorem C08_SE2_draw_spelled eps (H1 : 0 < eps) (H2 : eps <= 1 / 8) u : nc_draw (SE2_norm eps H1 H2) u <-> True.
+Proof. reflexivity. Qed.
 
 (* what the invariant says, spelled out for SO3 and SE2 (the records above are transparent) *)
 Theorem C08_SO3_inv_spelled eps (H1 : 0 < eps) (H2 : eps <= 1 / 8) X :
